@@ -6,7 +6,10 @@ LEAN_PROPS = ["FcpptProofs.Props.C12"]
 HARNESS = {"src": "harness/c12.cpp", "repo_srcs": ["libs/core/src/insert_extract_locale.cpp"]}
 TIE = ("hand-written model (FcpptModel/Model/C12.lean: libstdc++ istream state machine + fcppt::parse::detail::stream + "
        "character-level parsers) + differential correspondence against the real templates over std::basic_istringstream<char|wchar_t> "
-       "and a failure-injecting streambuf; the istream state bits are compared after every operation")
+       "and a failure-injecting streambuf; the istream state bits AND the stored location (stream::location_, read through a member "
+       "pointer) are compared after every operation; the backtracking combinators (alternative, optional, repetition, repetition_plus, "
+       "not_, fatal, sequence, basic_string, skipper repetition/sequence/space) are built at run time from the real templates and run "
+       "over a basic_stream wrapper that records every get_char/get_position/set_position call")
 RULE = ("exh K A|B L PREFIX: digest over all texts of length L over {a,\\n,space,tab} with that prefix of a fixed history "
         "(A: read through saving every position, probe end of input, rewind to every saved position; B: every ordered pair of "
         "rewinds and every rewind from the end-of-input state), each observation = value + eof/fail/bad bits; exhaustive for "
@@ -16,7 +19,14 @@ RULE = ("exh K A|B L PREFIX: digest over all texts of length L over {a,\\n,space
         "seeded long histories on random texts up to length 300 (newline-heavy, all byte values / wide code points), with "
         "parser calls, failing streams and fabricated positions. perr: literal/char_set/char_ and the skippers after every "
         "prefix of every text of length <= 3 (thorough: 4) — only the Line l:c numbers of the message are compared. "
-        "weight(exh) = number of texts, weight(seqs) = number of sequences; an op is non-trivial unless it is reset/open.")
+        "gx K L FA SK GR: digest over all texts of length L, started after k = 0..L+1 reads, of phrase_parse(GR, stream, SK) over "
+        "the recording stream: message skeleton + fatal bit, every basic_stream call with answer, state bits, stored location (and the "
+        "argument of set_position), then pos, get; 414 systematic grammars x 3-8 skippers, L <= 3..5 quick / 5..6 thorough, failing "
+        "buffers at every budget. ge: phrase_parse_stream / parse_stream / grammar_parse_stream on istreams read from before, plain "
+        "and failing at every budget. poseq/posout: == on all ordered pairs of 24 positions (same object included), << as exact text. "
+        "gp: random grammars on random texts after random histories. "
+        "weight(exh) = number of texts, weight(seqs) = number of sequences, weight(gx) = texts x starts; an op is non-trivial unless "
+        "it is reset/open.")
 ASSUMPTIONS = [
     "std::basic_istream<Ch> get/tellg/seekg/clear/sentry and basic_stringbuf seekoff/seekpos behave as modelled in IStream "
     "(libstdc++ 12; validated on every run: rdstate() is part of every compared observation)",
@@ -29,7 +39,9 @@ ASSUMPTIONS = [
     "precondition); fabricated positions are correspondence-only",
 ]
 TRUSTED = [
-    "harness/c12.cpp (incl. its streambuf and the extraction of 'Line l:c' from messages) and the line/digest protocol",
+    "harness/c12.cpp + harness/c12_grammar.cpp (incl. the streambuf, the recording basic_stream wrapper, the type-erased skipper "
+    "nodes, the reduction of messages to skeletons / 'Line l:c' numbers, the member-pointer read of stream::location_) and the "
+    "line/digest protocol",
     "g++ 12 + ASan/UBSan as witness for memory safety of the instantiations",
 ]
 
@@ -277,8 +289,10 @@ SKIPPERS_X = ["lit:32", "rep.seq.lit:32.lit:9", "seq.rep.lit:32.rep.lit:10", "cs
 def g_consumes(toks, i=0):
     """(consumes, next index) of the prefix-notation grammar starting at toks[i]"""
     n = toks[i].split(":")[0]
-    if n in ("any", "lit", "cset"):
+    if n in ("any", "lit", "cset", "k2"):
         return True, i + 1
+    if n == "k1":
+        return False, i + 1
     if n == "str":
         return toks[i] != "str:-", i + 1
     if n in ("seq", "alt"):
@@ -321,6 +335,8 @@ def grammar_sets():
         "rep.rep.lit:97" if False else "rep.plus.lit:97", "plus.plus.lit:10",
         "alt.not.any.seq.any.not.any", "seq.rep.any.not.any", "str:-", "seq.str:-.lit:97", "alt.str:-.lit:97",
         "cset:-", "cset:97,10,32,9",
+        # fixed grammars whose children are held by value (k1) / by fcppt::unique_ptr (k2), not by reference
+        "k1", "k2", "alt.k2.k1", "rep.k2", "not.k1",
     ]
     wide = []
     for u in G_UNARY:
@@ -521,9 +537,17 @@ MANIFEST = {
                    "saved position reproduces the exact stream state in which it was taken, hence all later reads and positions "
                    "(rewind_exact, rewind_exact_hist); end of input and a bad stream never yield a character (eof_never_char, "
                    "bad_never_char, failing_read_never_char, parse_bad_fails); literal/char_set errors carry the location after "
-                   "the offending character (expected_location). Tied to the code by a differential correspondence that is "
+                   "the offending character (expected_location). Every client of get_position/set_position (alternative, optional, "
+                   "repetition, repetition_plus, not_, fatal, sequence, basic_string, skipper repetition/sequence) refines the PEG "
+                   "semantics on a bare index call by call, from every state reached by reads, saves, rewinds and earlier parses "
+                   "(combinators_refine_peg), returns for every well-formed grammar (wellformed_returns), backtracks to exactly the "
+                   "saved stream state (not_/optional_restores_exactly, saved_position_survives_parse) and keeps the stored location "
+                   "true after every single call on every stream, failing ones included (combinators_keep_location, "
+                   "location_inv_with_parses). Tied to the code by a differential correspondence that is "
                    "exhaustive over all texts up to length 12 over {a,\\n,space,tab} (thorough; 9 quick) and over all op sequences "
-                   "up to length 7/8 on small texts, for char and wchar_t, plus seeded long histories."),
+                   "up to length 7/8 on small texts, for char and wchar_t, plus seeded long histories; the combinators by 414 "
+                   "systematic grammars on all texts up to length 3-5 (5-6 thorough) from every start index, every basic_stream call "
+                   "compared."),
     "level_note": ("Trusted: Lean kernel + propext/Quot.sound; the istream sub-model is an assumption about libstdc++ validated by "
                    "comparing rdstate() after every operation; fidelity of the hand-written model outside the exercised inputs; the "
                    "harness (its streambuf, message-number extraction) and the digest protocol. No sorry/axiom/native_decide."),
